@@ -297,8 +297,9 @@ class Hook:
             self.resume.wait(WATCHDOG)
 
 
-def run_op(op, t, tmpdir, hook=None):
-    """Runs one snapshot operation in the calling thread; returns the snapshot result."""
+def run_op(op, t, tmpdir, hook=None, dst=None):
+    """Runs one snapshot operation in the calling thread; returns the snapshot result.
+    dst: for copy_to, a node of a destination tree that several threads copy into (each below a node of its own)."""
     from nutree import Tree
 
     def hit():
@@ -339,7 +340,8 @@ def run_op(op, t, tmpdir, hook=None):
         r = t.filtered(pred) if op == "filtered" else t.copy(predicate=pred)
         return [n.data for n in r]
     if op == "copy_to":
-        dst = type(t)("dst")
+        if dst is None:
+            dst = type(t)("dst")
         t.copy_to(dst)
         return [n.data for n in dst]
     if op == "to_dict_list":
@@ -379,6 +381,12 @@ def schedule_A(case, res):
     results = {}
     errors = []
     others = [build_tree(7) for _ in range(nreaders)]  # one per reader: they must not wait for each other
+    slots = [None] * (nreaders + 1)
+    if case.get("shared_dst"):
+        # one destination tree for everybody: each thread copies below a node of its own.  The destination is not part of
+        # the snapshot contract, but whatever an implementation does with it must not stop the owner from nesting
+        shared = type(t)("shared-destination")
+        slots = [shared.add(f"slot{i}", **({"kind": "slot"} if case.get("typed") else {})) for i in range(nreaders + 1)]
     go = threading.Event()
     steps = writer_steps(t, style, 0)
     m = len(steps)
@@ -393,9 +401,9 @@ def schedule_A(case, res):
                     # the reader is inside the critical section of *another* tree: that must not exempt it from this tree's lock
                     with others[i]:
                         with others[i]:
-                            results[i] = run_op(op, t, tmpdir)
+                            results[i] = run_op(op, t, tmpdir, dst=slots[i])
                 else:
-                    results[i] = run_op(op, t, tmpdir)
+                    results[i] = run_op(op, t, tmpdir, dst=slots[i])
             except Exception:
                 errors.append("reader raised: " + short_tb(4))
             log.add("ret", me, op)
@@ -428,7 +436,7 @@ def schedule_A(case, res):
             if case.get("owner_op"):
                 # the owner itself calls the same snapshot operation (re-entrancy) while the readers are blocked on the lock;
                 # the snapshot it gets is the intermediate state it has produced itself - only completion matters here
-                run_op(op, t, tmpdir)
+                run_op(op, t, tmpdir, dst=slots[-1])
                 log.add("owner-op-done", me)
             for s in steps[p:]:
                 s()
@@ -975,10 +983,29 @@ def schedule_F(case, res):
     tmpdir = tempfile.mkdtemp(prefix="vmon-c18-")
     bad, seen = [], []
 
+    kept = []  # the application keeps the exception object (a logger, pytest.raises, a result list): its traceback keeps every
+    #            frame of the failed call alive, suspended generators included - the lock must be free all the same
+
+    class _BadTarget:
+        """an output stream that fails at its k-th write (disk full, an encoding the stream cannot represent)"""
+
+        def __init__(self):
+            self.n = 0
+
+        def write(self, text):
+            self.n += 1
+            if self.n == k:
+                raise _Boom("the output stream fails inside a snapshot operation")
+            return len(text)
+
     def one_call():
         if op == "save_badpath":
             # the target cannot be opened (folder does not exist): an OSError from the operation itself
             t.save(os.path.join(tmpdir, "no-such-folder", "x.json"), compression=bool(k % 2))
+        elif op == "save_badwrite":
+            t.save(_BadTarget())
+        elif op == "to_dotfile_badwrite":
+            t.to_dotfile(_BadTarget())
         else:
             run_op(op, t, tmpdir, hook=_RaisingHook(k))
 
@@ -992,6 +1019,7 @@ def schedule_F(case, res):
             seen.append("returned")
         except BaseException as e:  # noqa: BLE001
             seen.append(type(e).__name__)
+            kept.append(e)
 
     th = threading.Thread(target=reader, daemon=True)
     th.start()
@@ -1010,7 +1038,7 @@ def schedule_F(case, res):
     elif acq < 1:
         res.inconc("schedule F: the operation never acquired the tree lock")
     elif rel != acq:
-        bad.append(f"{op}: ended by an exception from the user's callback (call #{k}, outcome {seen}); the tree lock was acquired {acq}x but "
+        bad.append(f"{op}: ended by an exception (fault at call #{k} of the callback / output stream, outcome {seen}); the tree lock was acquired {acq}x but "
                    f"released {rel}x - it stays held by a thread that has ended")
     else:
         def after():
@@ -1036,6 +1064,7 @@ def schedule_F(case, res):
         elif any(e[1] == "blocked" for e in log.events[n0:]):
             bad.append(f"after {op} failed in a callback another thread found the lock taken although nobody is inside a critical section")
     shutil.rmtree(tmpdir, ignore_errors=True)
+    kept.clear()
     if bad:
         res.violation(case, "; ".join(dict.fromkeys(bad))[:2500])
 
@@ -1217,6 +1246,11 @@ def all_points(tier):
     for op in OPS:
         for style in (STYLES if tier != "quick" else ["rebuild"]):
             pts.append({"kind": "A", "op": op, "style": style, "phase": 2, "nest": 1, "readers": 2, "reader_holds_other": True})
+    for style in STYLES:
+        for nest in (1, 2):
+            for readers in (1, 2):
+                pts.append({"kind": "A", "op": "copy_to", "style": style, "phase": 2, "nest": nest, "readers": readers, "owner_op": True,
+                            "shared_dst": True})
     for op in OPS_WITH_CALLBACK:
         for style in STYLES:
             for k in ([1, 2, 5, 9, 12] if tier == "quick" else list(range(1, 14))):
@@ -1239,6 +1273,10 @@ def all_points(tier):
     for k in (1, 2):
         for nested in (False, True):
             pts.append({"kind": "F", "op": "save_badpath", "k": k, "nested": nested})
+    for op in ("save_badwrite", "to_dotfile_badwrite"):
+        for k in ((1, 4, 9) if tier == "quick" else (1, 2, 3, 4, 6, 9, 14)):
+            for nested in (False, True):
+                pts.append({"kind": "F", "op": op, "k": k, "nested": nested})
     for nest in (1, 2, 3):
         for exc in ("user", "base", "library"):
             for style in STYLES:
